@@ -19,7 +19,9 @@
 //! and all messages are parsed by the harness's own wire code.
 
 use bytes::Bytes;
-use domain::base::opt::Padding;
+use domain::base::iana::OptionCode;
+use domain::base::opt::cookie::ClientCookie;
+use domain::base::opt::{ClientSubnet, Cookie, Expire, Nsid, Padding, TcpKeepalive, UnknownOptData};
 use domain::base::Message;
 use domain::net::client::cache;
 use domain::net::client::request::{
@@ -31,6 +33,7 @@ use rayon::prelude::*;
 use serde_json::{json, Value};
 use std::collections::{BTreeMap, HashMap};
 use std::future::Future;
+use std::net::{IpAddr, Ipv4Addr};
 use std::pin::Pin;
 use std::sync::{Arc, Mutex};
 use std::time::Duration;
@@ -231,6 +234,10 @@ struct Step {
     /// route the flags get into the request, and which transport the
     /// upstream stands for
     mode: u8,
+    /// EDNS option layout of the request (index into `EOPTS`, request
+    /// constructions only; 0 = none) | `EO_ECHO` if the upstream copies the
+    /// options of the request it received into the OPT record of its answer
+    eo: u8,
 }
 
 /// Request construction (modes >= M_CONS). `f` of the step is then only a
@@ -284,8 +291,165 @@ fn cons_mode(style: u8, add: u8, route: u8) -> u8 {
     M_CONS + style * N_ADD * N_ROUTE + add * N_ROUTE + route
 }
 
+// ---------------------------------------------------------------- EDNS option axis
+
+/// The RDATA of an OPT record is a sequence of {code, length, data}
+/// (RFC 6891 6.1.2); a length of zero is legal and is what a client sends
+/// for NSID (RFC 5001 2.1), edns-tcp-keepalive (RFC 7828 3.2.1), EXPIRE
+/// (RFC 7314 2) and may send for Padding (RFC 7830 3).
+#[derive(Clone, Copy, Debug)]
+enum EO {
+    Nsid(&'static [u8]),
+    Padding(usize),
+    Cookie,
+    Subnet,
+    KeepaliveEmpty,
+    ExpireEmpty,
+    Unknown(u16, &'static [u8]),
+}
+/// One EDNS layout of a request construction.
+struct EOpt {
+    text: &'static str,
+    /// the options are added before the flags route runs (else after it)
+    first: bool,
+    /// the caller itself calls set_udp_payload_size with this value
+    payload: Option<u16>,
+    /// added through ComposeRequest::add_opt, in this order
+    opts: &'static [EO],
+    /// decoration of the own OPT record of the BASE message, if the base
+    /// message has one: 0 = plain (payload 4096, no options, only DO in the
+    /// TTL field); 1 = payload 65535, extended-rcode octet 0xFF, version 1,
+    /// options {cookie, NSID without data}; 2 = payload 0x8000, every Z bit
+    /// other than DO set, option {NSID without data}
+    base: u8,
+}
+const EO_ECHO: u8 = 0x80;
+const EOPTS: [EOpt; 24] = [
+    EOpt { text: "no option", first: false, payload: None, opts: &[], base: 0 },
+    EOpt { text: "add_opt(NSID without data): one zero-length option, last in the record", first: false, payload: None, opts: &[EO::Nsid(b"")], base: 0 },
+    EOpt { text: "add_opt(option code 65001 without data)", first: false, payload: None, opts: &[EO::Unknown(65001, b"")], base: 0 },
+    EOpt { text: "add_opt(NSID without data), add_opt(Padding 4): a zero-length option followed by a non-empty one", first: false, payload: None, opts: &[EO::Nsid(b""), EO::Padding(4)], base: 0 },
+    EOpt { text: "add_opt(Padding 4), add_opt(NSID without data): a non-empty option, then a zero-length one as the last", first: false, payload: None, opts: &[EO::Padding(4), EO::Nsid(b"")], base: 0 },
+    EOpt { text: "add_opt(Cookie, 8 octet client cookie)", first: false, payload: None, opts: &[EO::Cookie], base: 0 },
+    EOpt { text: "add_opt(Padding 31)", first: false, payload: None, opts: &[EO::Padding(31)], base: 0 },
+    EOpt { text: "add_opt(ClientSubnet 192.0.2.0/24)", first: false, payload: None, opts: &[EO::Subnet], base: 0 },
+    EOpt { text: "add_opt(Cookie), add_opt(ClientSubnet): two non-empty options", first: false, payload: None, opts: &[EO::Cookie, EO::Subnet], base: 0 },
+    EOpt { text: "add_opt(option code 65001 with 3 octets of data)", first: false, payload: None, opts: &[EO::Unknown(65001, &[1, 2, 3])], base: 0 },
+    EOpt { text: "add_opt(TcpKeepalive without timeout), add_opt(Expire without value): two zero-length options", first: false, payload: None, opts: &[EO::KeepaliveEmpty, EO::ExpireEmpty], base: 0 },
+    EOpt { text: "set_udp_payload_size(65535), no option", first: false, payload: Some(0xFFFF), opts: &[], base: 0 },
+    EOpt { text: "set_udp_payload_size(65535), add_opt(NSID without data)", first: false, payload: Some(0xFFFF), opts: &[EO::Nsid(b"")], base: 0 },
+    EOpt { text: "set_udp_payload_size(0x8000), add_opt(Cookie)", first: false, payload: Some(0x8000), opts: &[EO::Cookie], base: 0 },
+    EOpt { text: "add_opt(Padding 468)", first: false, payload: None, opts: &[EO::Padding(468)], base: 0 },
+    EOpt { text: "add_opt(NSID without data) BEFORE the flags are set", first: true, payload: None, opts: &[EO::Nsid(b"")], base: 0 },
+    EOpt { text: "add_opt(Cookie) BEFORE the flags are set", first: true, payload: None, opts: &[EO::Cookie], base: 0 },
+    EOpt { text: "no option added; the base message's own OPT record (if any) has payload 65535, extended-rcode 0xFF, version 1, options {cookie, NSID without data}", first: false, payload: None, opts: &[], base: 1 },
+    EOpt { text: "add_opt(NSID without data); the base message's own OPT record (if any) has payload 65535, extended-rcode 0xFF, version 1, options {cookie, NSID without data}", first: false, payload: None, opts: &[EO::Nsid(b"")], base: 1 },
+    EOpt { text: "no option added; the base message's own OPT record (if any) has payload 0x8000, all Z bits other than DO set, option {NSID without data}", first: false, payload: None, opts: &[], base: 2 },
+    EOpt { text: "add_opt(Cookie); the base message's own OPT record (if any) has payload 0x8000, all Z bits other than DO set, option {NSID without data}", first: false, payload: None, opts: &[EO::Cookie], base: 2 },
+    EOpt { text: "add_opt(Padding 0): zero-length padding", first: false, payload: None, opts: &[EO::Padding(0)], base: 0 },
+    EOpt {
+        text: "add_opt x 5: Cookie, ClientSubnet, code 65001 without data, Padding 7, TcpKeepalive without timeout (zero-length in the middle and last)",
+        first: false,
+        payload: None,
+        opts: &[EO::Cookie, EO::Subnet, EO::Unknown(65001, b""), EO::Padding(7), EO::KeepaliveEmpty],
+        base: 0,
+    },
+    EOpt { text: "add_opt(Padding 4000)", first: false, payload: None, opts: &[EO::Padding(4000)], base: 0 },
+];
+fn eopt(eo: u8) -> &'static EOpt {
+    &EOPTS[(eo & !EO_ECHO) as usize]
+}
+const CLIENT_COOKIE: [u8; 8] = [0xC0, 0x0C, 0x1E, 3, 4, 5, 6, 7];
+/// (code, data) of one option as RFC 5001 / 7830 / 7873 / 7871 / 7828 /
+/// 7314 put it on the wire.
+fn eo_wire(o: &EO) -> (u16, Vec<u8>) {
+    match o {
+        EO::Nsid(d) => (3, d.to_vec()),
+        EO::Padding(n) => (12, vec![0; *n]),
+        EO::Cookie => (10, CLIENT_COOKIE.to_vec()),
+        // FAMILY 1, SOURCE PREFIX-LENGTH 24, SCOPE PREFIX-LENGTH 0, 3 octets of address
+        EO::Subnet => (8, vec![0, 1, 24, 0, 192, 0, 2]),
+        EO::KeepaliveEmpty => (11, vec![]),
+        EO::ExpireEmpty => (9, vec![]),
+        EO::Unknown(c, d) => (*c, d.to_vec()),
+    }
+}
+/// The options the caller added, as a sorted list.
+fn expected_options(eo: u8) -> Vec<(u16, Vec<u8>)> {
+    let mut v: Vec<(u16, Vec<u8>)> = eopt(eo).opts.iter().map(eo_wire).collect();
+    v.sort();
+    v
+}
+/// Own reader of an option sequence (RFC 6891 6.1.2), in wire order.
+fn read_options(rdata: &[u8]) -> Result<Vec<(u16, Vec<u8>)>, String> {
+    let mut v = Vec::new();
+    let mut p = 0;
+    while p < rdata.len() {
+        if p + 4 > rdata.len() {
+            return Err(format!("option header at offset {p} overruns the {} octets of OPT RDATA", rdata.len()));
+        }
+        let code = u16::from_be_bytes([rdata[p], rdata[p + 1]]);
+        let len = u16::from_be_bytes([rdata[p + 2], rdata[p + 3]]) as usize;
+        if p + 4 + len > rdata.len() {
+            return Err(format!("option {code} at offset {p}: length {len} overruns the {} octets of OPT RDATA", rdata.len()));
+        }
+        v.push((code, rdata[p + 4..p + 4 + len].to_vec()));
+        p += 4 + len;
+    }
+    Ok(v)
+}
+/// Adds the options of a layout to a request through the ComposeRequest interface.
+fn apply_eopts(req: &mut RequestMessage<Vec<u8>>, lay: &EOpt) -> Result<(), String> {
+    if let Some(p) = lay.payload {
+        req.set_udp_payload_size(p);
+    }
+    for o in lay.opts {
+        let r = match o {
+            EO::Nsid(d) => req.add_opt(&Nsid::from_octets(d.to_vec()).map_err(|_| "Nsid::from_octets refused".to_string())?),
+            EO::Padding(n) => req.add_opt(&Padding::from_octets(vec![0u8; *n]).map_err(|_| "Padding::from_octets refused".to_string())?),
+            EO::Cookie => req.add_opt(&Cookie::new(ClientCookie::from_octets(CLIENT_COOKIE), None)),
+            EO::Subnet => req.add_opt(&ClientSubnet::new(24, 0, IpAddr::V4(Ipv4Addr::new(192, 0, 2, 0)))),
+            EO::KeepaliveEmpty => req.add_opt(&TcpKeepalive::new(None)),
+            EO::ExpireEmpty => req.add_opt(&Expire::new(None)),
+            EO::Unknown(c, d) => req.add_opt(&UnknownOptData::new(OptionCode::from_int(*c), d.to_vec()).map_err(|_| "UnknownOptData::new refused".to_string())?),
+        };
+        r.map_err(|_| format!("add_opt refused {o:?}"))?;
+    }
+    Ok(())
+}
+/// What a request's EDNS layout must look like on the wire: a well-formed
+/// option sequence that contains every option the caller added.
+fn check_wire_options(p: &PMsg, eo: u8) -> Result<(), String> {
+    let want = expected_options(eo);
+    let mut got = match &p.opt_rdata {
+        None => vec![],
+        Some(r) => read_options(r).map_err(|e| format!("the OPT record of the request is not a sequence of options (RFC 6891 6.1.2): {e}"))?,
+    };
+    got.sort();
+    let mut g = got.iter().peekable();
+    for w in &want {
+        while g.peek().is_some_and(|x| *x < w) {
+            g.next();
+        }
+        if g.next() != Some(w) {
+            return Err(format!("option code {} with {} octets of data was added by the caller but is not in the request on the wire (options there: {:?})", w.0, w.1.len(), got.iter().map(|(c, d)| (*c, d.len())).collect::<Vec<_>>()));
+        }
+    }
+    Ok(())
+}
+/// The options of a message's OPT record as a sorted list (None: not a
+/// well-formed option sequence).
+fn sorted_options(p: &PMsg) -> Option<Vec<(u16, Vec<u8>)>> {
+    let mut v = match &p.opt_rdata {
+        None => vec![],
+        Some(r) => read_options(r).ok()?,
+    };
+    v.sort();
+    Some(v)
+}
+
 fn step_json(s: &Step) -> Value {
-    json!({"adv_ms": s.adv_ms, "q": s.q, "flags": s.f, "ans": s.ans, "mode": s.mode})
+    json!({"adv_ms": s.adv_ms, "q": s.q, "flags": s.f, "ans": s.ans, "mode": s.mode, "eo": s.eo})
 }
 fn flags_text(f: u8) -> String {
     format!(
@@ -300,8 +464,15 @@ fn step_text(s: &Step) -> String {
     let how = match cons_of(s.mode) {
         None => ["", " (flags via header_mut)", " (flags via header_mut, OPT via set_udp_payload_size+add_opt)"][s.mode as usize].to_string(),
         Some(c) => format!(
-            " (construction parameters, not necessarily the effective flags; base message: {}; route: {}; upstream transport: {})",
-            ADDS[c.add as usize], ROUTES[c.route as usize], STYLES[c.style as usize]
+            " (construction parameters, not necessarily the effective flags; base message: {}; route: {}; upstream transport: {}{})",
+            ADDS[c.add as usize],
+            ROUTES[c.route as usize],
+            STYLES[c.style as usize],
+            if s.eo == 0 {
+                String::new()
+            } else {
+                format!("; EDNS: {}{}", eopt(s.eo).text, if s.eo & EO_ECHO != 0 { "; the upstream copies the request's options into its answer's OPT record" } else { "" })
+            }
         ),
     };
     format!("+{}ms {} [{}]{} upstream-would-answer={}", s.adv_ms, q_text(s.q), flags_text(s.f), how, KINDS[s.ans as usize])
@@ -563,6 +734,11 @@ fn render(kind: u8, qname: &[u8], qtype: u16, f: u8, m: u8) -> Option<(u16, [Vec
 }
 
 fn build_message(id: u16, flags: u16, qs: &[(&[u8], u16, u16)], secs: &[Vec<Rec>; 3], opt_do: Option<bool>) -> Vec<u8> {
+    build_message_opt(id, flags, qs, secs, opt_do, &[])
+}
+
+/// As build_message; the OPT record (if any) carries `opt_rdata`.
+fn build_message_opt(id: u16, flags: u16, qs: &[(&[u8], u16, u16)], secs: &[Vec<Rec>; 3], opt_do: Option<bool>, opt_rdata: &[u8]) -> Vec<u8> {
     let mut v = Vec::new();
     v.extend_from_slice(&id.to_be_bytes());
     v.extend_from_slice(&flags.to_be_bytes());
@@ -590,7 +766,8 @@ fn build_message(id: u16, flags: u16, qs: &[(&[u8], u16, u16)], secs: &[Vec<Rec>
         v.extend_from_slice(&T_OPT.to_be_bytes());
         v.extend_from_slice(&1232u16.to_be_bytes());
         v.extend_from_slice(&(if d { 0x8000u32 } else { 0 }).to_be_bytes());
-        v.extend_from_slice(&0u16.to_be_bytes());
+        v.extend_from_slice(&(opt_rdata.len() as u16).to_be_bytes());
+        v.extend_from_slice(opt_rdata);
     }
     v
 }
@@ -612,7 +789,7 @@ fn h_bits(f3: u8) -> u16 {
 }
 
 /// A base message with one of the ADDS additional sections.
-fn build_base(id: u16, flags: u16, qs: &[(&[u8], u16, u16)], add: u8) -> Vec<u8> {
+fn build_base(id: u16, flags: u16, qs: &[(&[u8], u16, u16)], add: u8, deco: u8) -> Vec<u8> {
     let mut v = build_message(id, flags, qs, &[vec![], vec![], vec![]], None);
     let rec = |v: &mut Vec<u8>| {
         v.extend_from_slice(b"\x01x\x02ex\x00");
@@ -623,11 +800,26 @@ fn build_base(id: u16, flags: u16, qs: &[(&[u8], u16, u16)], add: u8) -> Vec<u8>
         v.extend_from_slice(&[192, 0, 2, 99]);
     };
     let opt = |v: &mut Vec<u8>, d: bool| {
+        // (payload size, TTL field besides DO, options) of the decoration
+        let (payload, ttl, opts): (u16, u32, Vec<EO>) = match deco {
+            0 => (4096, 0, vec![]),
+            1 => (0xFFFF, 0xFF01_0000, vec![EO::Cookie, EO::Nsid(b"")]),
+            2 => (0x8000, 0x0000_7FFF, vec![EO::Nsid(b"")]),
+            _ => unreachable!(),
+        };
+        let mut rdata = Vec::new();
+        for o in &opts {
+            let (code, data) = eo_wire(o);
+            rdata.extend_from_slice(&code.to_be_bytes());
+            rdata.extend_from_slice(&(data.len() as u16).to_be_bytes());
+            rdata.extend_from_slice(&data);
+        }
         v.push(0);
         v.extend_from_slice(&T_OPT.to_be_bytes());
-        v.extend_from_slice(&4096u16.to_be_bytes());
-        v.extend_from_slice(&(if d { 0x8000u32 } else { 0 }).to_be_bytes());
-        v.extend_from_slice(&0u16.to_be_bytes());
+        v.extend_from_slice(&payload.to_be_bytes());
+        v.extend_from_slice(&(ttl | if d { 0x8000u32 } else { 0 }).to_be_bytes());
+        v.extend_from_slice(&(rdata.len() as u16).to_be_bytes());
+        v.extend_from_slice(&rdata);
     };
     let n: u16 = match add {
         0 => 0,
@@ -657,17 +849,21 @@ fn build_base(id: u16, flags: u16, qs: &[(&[u8], u16, u16)], add: u8) -> Vec<u8>
 
 /// Builds a request along one construction. Nothing is read back here: what
 /// the request effectively asks is read from the octets a transport sends.
-fn build_request_cons(q: u8, f: u8, step: usize, c: Cons) -> Result<RequestMessage<Vec<u8>>, String> {
+fn build_request_cons(q: u8, f: u8, step: usize, c: Cons, eo: u8) -> Result<RequestMessage<Vec<u8>>, String> {
     let form = &FORMS[q as usize];
+    let lay = eopt(eo);
     let f3 = f & (RD | CD | AD);
     let base_f3 = match c.route {
         0 | 2 => f3,
         1 | 3 => 0,
         _ => !f3 & (RD | CD | AD),
     };
-    let bytes = build_base(0x1000 + step as u16, ((form.opcode as u16) << 11) | h_bits(base_f3), form.qs, c.add);
+    let bytes = build_base(0x1000 + step as u16, ((form.opcode as u16) << 11) | h_bits(base_f3), form.qs, c.add, lay.base);
     let msg = Message::from_octets(bytes).expect("harness request is a message");
     let mut req = RequestMessage::new(msg).map_err(|e| format!("RequestMessage::new refused {}: {e:?}", form.text))?;
+    if lay.first {
+        apply_eopts(&mut req, lay)?;
+    }
     if c.route != 0 {
         let h = req.header_mut();
         h.set_rd(f & RD != 0);
@@ -676,6 +872,9 @@ fn build_request_cons(q: u8, f: u8, step: usize, c: Cons) -> Result<RequestMessa
         if f & DO != 0 || c.route >= 3 {
             req.set_dnssec_ok(f & DO != 0);
         }
+    }
+    if !lay.first {
+        apply_eopts(&mut req, lay)?;
     }
     Ok(req)
 }
@@ -716,9 +915,9 @@ fn wire_flags(p: &PMsg) -> u8 {
     f
 }
 
-fn build_request(q: u8, f: u8, step: usize, mode: u8) -> Result<RequestMessage<Vec<u8>>, String> {
+fn build_request(q: u8, f: u8, step: usize, mode: u8, eo: u8) -> Result<RequestMessage<Vec<u8>>, String> {
     if let Some(c) = cons_of(mode) {
-        return build_request_cons(q, f, step, c);
+        return build_request_cons(q, f, step, c, eo);
     }
     let form = &FORMS[q as usize];
     let mut flags = (form.opcode as u16) << 11;
@@ -783,6 +982,8 @@ struct PMsg {
     qclass: u16,
     recs: Vec<CRec>, // sorted, OPT excluded
     opt_do: Option<bool>,
+    /// RDATA of the (last) OPT record
+    opt_rdata: Option<Vec<u8>>,
     /// number of OPT records, and whether an OPT record is preceded by
     /// another record of the additional section
     n_opt: usize,
@@ -847,11 +1048,13 @@ fn parse(bytes: &[u8]) -> Result<PMsg, String> {
     }
     let mut recs = Vec::new();
     let mut opt_do = None;
+    let mut opt_rdata = None;
     let (mut n_opt, mut opt_not_first) = (0usize, false);
     for s in 0..3 {
         for (i, r) in raw.sections[s].iter().enumerate() {
             if r.rtype == T_OPT {
                 opt_do = Some(r.ttl & 0x8000 != 0);
+                opt_rdata = Some(r.rdata.clone());
                 n_opt += 1;
                 opt_not_first |= s == 2 && i > 0;
                 continue;
@@ -872,7 +1075,7 @@ fn parse(bytes: &[u8]) -> Result<PMsg, String> {
         None => (0, 0),
     };
     let questions = raw.questions.iter().map(|q| (lower_wire(&q.qname), q.qtype, q.qclass)).collect();
-    Ok(PMsg { flags: raw.flags, questions, qtype, qclass, recs, opt_do, n_opt, opt_not_first })
+    Ok(PMsg { flags: raw.flags, questions, qtype, qclass, recs, opt_do, opt_rdata, n_opt, opt_not_first })
 }
 
 // ---------------------------------------------------------------- scripted upstream
@@ -885,6 +1088,10 @@ struct LogEntry {
     f: u8,
     /// the request had its OPT record behind another additional record
     opt_not_first: bool,
+    /// options in the OPT record of the request as received, in wire order: (code, length)
+    req_opts: Vec<(u16, usize)>,
+    /// octets of options the upstream put into the OPT record of its answer
+    resp_opt_len: usize,
     kind: u8,
     /// what the upstream returned: parsed message, or the error's Debug text
     res: Result<PMsg, String>,
@@ -896,6 +1103,8 @@ struct Shared {
     /// Some(style): the upstream is a transport of that style; None: the
     /// request is serialised as it is handed over
     style: Option<u8>,
+    /// EDNS layout of the step being executed (request constructions)
+    eo: u8,
     step: usize,
     now_ms: u64,
     log: Vec<LogEntry>,
@@ -956,7 +1165,7 @@ impl SendRequest<RequestMessage<Vec<u8>>> for Upstream {
                 // whichever transport carries the request, the upstream must be asked the same
                 for s2 in (0..N_STYLE).filter(|s2| *s2 != s) {
                     match transport_wire(&req, s2).and_then(|b| parse(&b)) {
-                        Ok(a) if a.flags == p.flags && a.questions == p.questions && wire_flags(&a) == wire_flags(&p) && a.recs == p.recs => {}
+                        Ok(a) if a.flags == p.flags && a.questions == p.questions && wire_flags(&a) == wire_flags(&p) && a.recs == p.recs && sorted_options(&a) == sorted_options(&p) => {}
                         other => {
                             sh.bad = Some(format!(
                                 "transports disagree on what is sent for one request: [{}] sends {:?}, [{}] sends {:?}",
@@ -970,6 +1179,14 @@ impl SendRequest<RequestMessage<Vec<u8>>> for Upstream {
                 }
             }
         }
+        if sh.style.is_some() {
+            if let Err(e) = check_wire_options(&p, sh.eo) {
+                sh.bad = Some(format!("forwarded request: {e}"));
+            }
+        }
+        let req_opts: Vec<(u16, usize)> = p.opt_rdata.as_deref().and_then(|r| read_options(r).ok()).unwrap_or_default().iter().map(|(c, d)| (*c, d.len())).collect();
+        // an upstream that copies the options it received into its answer
+        let echo: Vec<u8> = if sh.eo & EO_ECHO != 0 { p.opt_rdata.clone().unwrap_or_default() } else { vec![] };
         let raw = read_message(&bytes).unwrap();
         let qwires: Vec<(Vec<u8>, u16, u16)> = raw.questions.iter().map(|q| (mc::wire::to_wire(&q.qname), q.qtype, q.qclass)).collect();
         let qrefs: Vec<(&[u8], u16, u16)> = qwires.iter().map(|(n, t, c)| (&n[..], *t, *c)).collect();
@@ -989,7 +1206,7 @@ impl SendRequest<RequestMessage<Vec<u8>>> for Upstream {
             }
             Some((h, secs)) => {
                 let flags = H_QR | H_RA | h | (p.flags & (H_RD | H_CD | 0x7800));
-                let out = build_message(raw.id, flags, &qrefs, &secs, p.opt_do);
+                let out = build_message_opt(raw.id, flags, &qrefs, &secs, p.opt_do, &echo);
                 let parsed = parse(&out).expect("harness response parses");
                 let msg = Message::from_octets(Bytes::from(out.clone())).expect("harness response is a message");
                 (Ok(msg), Ok(parsed), out)
@@ -997,7 +1214,8 @@ impl SendRequest<RequestMessage<Vec<u8>>> for Upstream {
         };
         let (step, t_ms) = (sh.step, sh.now_ms);
         let ident: Ident = (((p.flags >> 11) & 0xF) as u8, p.questions.clone());
-        sh.log.push(LogEntry { step, t_ms, ident, f, opt_not_first: p.opt_not_first, kind, res: logged, raw: rawout });
+        let resp_opt_len = if p.opt_do.is_some() { echo.len() } else { 0 };
+        sh.log.push(LogEntry { step, t_ms, ident, f, opt_not_first: p.opt_not_first, req_opts, resp_opt_len, kind, res: logged, raw: rawout });
         Box::new(Scripted(res))
     }
 }
@@ -1026,7 +1244,7 @@ fn run_history(cfg_i: usize, steps: &[Step]) -> Result<Run, String> {
             .start_paused(true)
             .build()
             .expect("runtime");
-        let shared = Arc::new(Mutex::new(Shared { kind: 0, style: None, step: 0, now_ms: 0, log: Vec::new(), bad: None }));
+        let shared = Arc::new(Mutex::new(Shared { kind: 0, style: None, eo: 0, step: 0, now_ms: 0, log: Vec::new(), bad: None }));
         let sh2 = shared.clone();
         let obs = rt.block_on(async move {
             if CFGS[cfg_i].setup == Setup::New {
@@ -1059,11 +1277,12 @@ async fn drive<C: SendRequest<RequestMessage<Vec<u8>>>>(conn: &C, steps: &[Step]
                     let mut s = sh2.lock().unwrap();
                     s.kind = st.ans;
                     s.style = cons_of(st.mode).map(|c| c.style);
+                    s.eo = st.eo;
                     s.step = i;
                     s.now_ms = now;
                     s.log.len()
                 };
-                let req = match build_request(st.q, st.f, i, st.mode) {
+                let req = match build_request(st.q, st.f, i, st.mode, st.eo) {
                     Ok(r) => r,
                     Err(e) => {
                         sh2.lock().unwrap().bad = Some(e.clone());
@@ -1074,7 +1293,12 @@ async fn drive<C: SendRequest<RequestMessage<Vec<u8>>>>(conn: &C, steps: &[Step]
                 let eff_f = match cons_of(st.mode) {
                     None => None,
                     Some(c) => match transport_wire(&req, c.style).and_then(|b| parse(&b)) {
-                        Ok(p) => Some(wire_flags(&p)),
+                        Ok(p) => {
+                            if let Err(e) = check_wire_options(&p, st.eo) {
+                                sh2.lock().unwrap().bad = Some(format!("request as a transport sends it: {e}"));
+                            }
+                            Some(wire_flags(&p))
+                        }
                         Err(e) => {
                             sh2.lock().unwrap().bad = Some(format!("request does not serialise: {e}"));
                             obs.push(StepObs { forwarded: true, res: Err(e), t_ms: now, eff_f: None });
@@ -1161,6 +1385,7 @@ const O_EXACT_BOUND: u32 = 1 << 6;
 const O_AD_CLEARED: u32 = 1 << 7;
 const O_AA_CLEARED: u32 = 1 << 8;
 const O_TC: u32 = 1 << 9;
+const O_SRC_EDNS_OPTIONS: u32 = 1 << 10;
 
 struct Fail {
     stage: u8,
@@ -1243,6 +1468,9 @@ fn check_candidate(cfg: &Cfg, e: &LogEntry, p: &Probe, served: &Result<PMsg, Str
     }
     if stripped {
         out |= O_STRIPPED;
+    }
+    if e.resp_opt_len > 0 {
+        out |= O_SRC_EDNS_OPTIONS;
     }
 
     // 4. no DNSSEC exposure
@@ -1415,6 +1643,15 @@ struct Local {
     cons_eff_differs: u64,
     cons_base_do_absent_on_wire: u64,
     cons_do_behind_record: u64,
+    /// EDNS option axis: requests the upstream received with at least one
+    /// option; with DO=1 and a zero-length option as the last one; with DO=1
+    /// and any option; probes whose last option has length zero that were
+    /// served from the cache; with DO=1 among them
+    eo_upstream_saw_options: u64,
+    eo_upstream_saw_do_zero_last: u64,
+    eo_upstream_saw_do_options: u64,
+    eo_probe_zero_last_served: u64,
+    eo_probe_do_zero_last_served: u64,
     outcomes: HashMap<u32, u64>,
     served_by_kind: KindCounts,
     by_adv: BTreeMap<u64, (u64, u64)>,
@@ -1438,6 +1675,11 @@ impl Local {
         self.cons_eff_differs += o.cons_eff_differs;
         self.cons_base_do_absent_on_wire += o.cons_base_do_absent_on_wire;
         self.cons_do_behind_record += o.cons_do_behind_record;
+        self.eo_upstream_saw_options += o.eo_upstream_saw_options;
+        self.eo_upstream_saw_do_zero_last += o.eo_upstream_saw_do_zero_last;
+        self.eo_upstream_saw_do_options += o.eo_upstream_saw_do_options;
+        self.eo_probe_zero_last_served += o.eo_probe_zero_last_served;
+        self.eo_probe_do_zero_last_served += o.eo_probe_do_zero_last_served;
         for (k, v) in o.outcomes {
             *self.outcomes.entry(k).or_insert(0) += v;
         }
@@ -1471,6 +1713,7 @@ fn outcome_text(code: u32) -> String {
         (O_AD_CLEARED, "ad-cleared"),
         (O_AA_CLEARED, "aa-cleared"),
         (O_TC, "truncated"),
+        (O_SRC_EDNS_OPTIONS, "upstream-answer-had-edns-options"),
         (O_EXACT_BOUND, "at-exact-bound"),
     ] {
         if code & bit != 0 {
@@ -1531,8 +1774,25 @@ fn eval_history(ctx: &Ctx, shape: &'static str, cfg_i: usize, steps: &[Step], lo
             }
         }
     }
+    for e in &run.log {
+        if !e.req_opts.is_empty() {
+            loc.eo_upstream_saw_options += 1;
+            if e.f & DO != 0 {
+                loc.eo_upstream_saw_do_options += 1;
+                if e.req_opts.last().is_some_and(|o| o.1 == 0) {
+                    loc.eo_upstream_saw_do_zero_last += 1;
+                }
+            }
+        }
+    }
     for i in 0..steps.len() {
         let v = judge_step(cfg, steps, &run, i);
+        if i > 0 && matches!(v, Verdict::Hit(..)) && eopt(steps[i].eo).opts.last().is_some_and(|o| eo_wire(o).1.is_empty()) {
+            loc.eo_probe_zero_last_served += 1;
+            if run.obs[i].eff_f.is_some_and(|f| f & DO != 0) {
+                loc.eo_probe_do_zero_last_served += 1;
+            }
+        }
         if !counted {
             match v {
                 Verdict::Forwarded if i >= 4 => loc.evict_forward_seen = true,
@@ -1628,6 +1888,7 @@ fn main() {
                 f: s["flags"].as_u64().unwrap() as u8,
                 ans: s["ans"].as_u64().unwrap() as u8,
                 mode: s["mode"].as_u64().unwrap_or(0) as u8,
+                eo: s["eo"].as_u64().unwrap_or(0) as u8,
             })
             .collect();
         println!("replaying under config {} ({:?})", CFGS[cfg_i].name, CFGS[cfg_i]);
@@ -1650,7 +1911,7 @@ fn main() {
     let nkinds = N_MAIN;
     let fills: Vec<Step> = fill_qs
         .iter()
-        .flat_map(|&q| (0..16u8).flat_map(move |f| (0..nkinds).map(move |ans| Step { adv_ms: 0, q, f, ans, mode: 0 })))
+        .flat_map(|&q| (0..16u8).flat_map(move |f| (0..nkinds).map(move |ans| Step { adv_ms: 0, q, f, ans, mode: 0, eo: 0 })))
         .collect();
     // clock advances (ms) in front of a probe; every configured bound and
     // every TTL of the answer menu has a value just below, at, and above it
@@ -1694,7 +1955,7 @@ fn main() {
         for &a in &adv1 {
             for f in 0..16u8 {
                 loc.nodes += 1;
-                let h = [fill, Step { adv_ms: a, q: fill.q, f, ans: K_PROBE, mode: 0 }];
+                let h = [fill, Step { adv_ms: a, q: fill.q, f, ans: K_PROBE, mode: 0, eo: 0 }];
                 eval_history(&ctx, "fill-probe", c, &h, &mut loc, false);
             }
         }
@@ -1714,7 +1975,7 @@ fn main() {
                 for &a2 in &adv2 {
                     for f2 in 0..16u8 {
                         loc.nodes += 1;
-                        let h = [fill, Step { adv_ms: a1, q: fill.q, f: f1, ans: K_PROBE, mode: 0 }, Step { adv_ms: a2, q: fill.q, f: f2, ans: K_PROBE, mode: 0 }];
+                        let h = [fill, Step { adv_ms: a1, q: fill.q, f: f1, ans: K_PROBE, mode: 0, eo: 0 }, Step { adv_ms: a2, q: fill.q, f: f2, ans: K_PROBE, mode: 0, eo: 0 }];
                         eval_history(&ctx, "fill-probe-probe", c, &h, &mut loc, false);
                     }
                 }
@@ -1735,7 +1996,7 @@ fn main() {
     let fills3: Vec<Step> = (0..NQ as u8)
         .flat_map(|q| {
             let kinds3 = &kinds3;
-            (0..16u8).flat_map(move |f| kinds3.iter().map(move |&ans| Step { adv_ms: 0, q, f, ans, mode: 0 }))
+            (0..16u8).flat_map(move |f| kinds3.iter().map(move |&ans| Step { adv_ms: 0, q, f, ans, mode: 0, eo: 0 }))
         })
         .collect();
     let items: Vec<(usize, Step)> = cfgs3.iter().flat_map(|&c| fills3.iter().map(move |f| (c, *f))).collect();
@@ -1750,7 +2011,7 @@ fn main() {
             for &a in &adv3 {
                 for f in 0..16u8 {
                     loc.nodes += 1;
-                    let h = [fill, Step { adv_ms: a, q, f, ans: K_PROBE, mode: 0 }];
+                    let h = [fill, Step { adv_ms: a, q, f, ans: K_PROBE, mode: 0, eo: 0 }];
                     eval_history(&ctx, "fill-cross-probe", c, &h, &mut loc, false);
                 }
             }
@@ -1771,7 +2032,7 @@ fn main() {
         let cfg4 = 0usize;
         let fills4: Vec<Step> = qs4
             .iter()
-            .flat_map(|&q| (0..16u8).flat_map(move |f| kinds4.into_iter().map(move |ans| Step { adv_ms: 0, q, f, ans, mode: 0 })))
+            .flat_map(|&q| (0..16u8).flat_map(move |f| kinds4.into_iter().map(move |ans| Step { adv_ms: 0, q, f, ans, mode: 0, eo: 0 })))
             .collect();
         let fills4b: Vec<Step> = adv_f2
             .iter()
@@ -1790,7 +2051,7 @@ fn main() {
                     for &a2 in &adv_p2 {
                         for p2 in 0..16u8 {
                             loc.nodes += 1;
-                            let h = [f1, f2, Step { adv_ms: a1, q: f1.q, f: p1, ans: K_PROBE, mode: 0 }, Step { adv_ms: a2, q: f1.q, f: p2, ans: K_PROBE, mode: 0 }];
+                            let h = [f1, f2, Step { adv_ms: a1, q: f1.q, f: p1, ans: K_PROBE, mode: 0, eo: 0 }, Step { adv_ms: a2, q: f1.q, f: p2, ans: K_PROBE, mode: 0, eo: 0 }];
                             eval_history(&ctx, "fill-fill-probe-probe", cfg4, &h, &mut loc, false);
                         }
                     }
@@ -1811,7 +2072,7 @@ fn main() {
     ];
     let items: Vec<(usize, Step, &Vec<u64>)> = s5
         .iter()
-        .flat_map(|(c, kinds, advs)| [0u8, 2].into_iter().flat_map(move |q| (0..16u8).flat_map(move |f| kinds.iter().map(move |&ans| (*c, Step { adv_ms: 0, q, f, ans, mode: 0 }, advs)))))
+        .flat_map(|(c, kinds, advs)| [0u8, 2].into_iter().flat_map(move |q| (0..16u8).flat_map(move |f| kinds.iter().map(move |&ans| (*c, Step { adv_ms: 0, q, f, ans, mode: 0, eo: 0 }, advs)))))
         .collect();
     items.par_iter().for_each(|&(c, fill, advs)| {
         wd.enter(|| json!({"shape": "config-limits", "cfg": c, "fill": step_json(&fill)}));
@@ -1820,7 +2081,7 @@ fn main() {
         for &a in advs {
             for f in 0..16u8 {
                 loc.nodes += 1;
-                let h = [fill, Step { adv_ms: a * 1000, q: fill.q, f, ans: K_PROBE, mode: 0 }];
+                let h = [fill, Step { adv_ms: a * 1000, q: fill.q, f, ans: K_PROBE, mode: 0, eo: 0 }];
                 eval_history(&ctx, "config-limits", c, &h, &mut loc, false);
             }
         }
@@ -1833,7 +2094,7 @@ fn main() {
     //      (mode 1), plus an OPT record made by set_udp_payload_size/add_opt
     //      (mode 2); all pairs of modes except (0,0), which is shape 1.
     let kinds6: [u8; 3] = [0, 16, 26];
-    let items: Vec<Step> = (0..16u8).flat_map(|f| kinds6.into_iter().flat_map(move |ans| (0..3u8).map(move |mode| Step { adv_ms: 0, q: 0, f, ans, mode }))).collect();
+    let items: Vec<Step> = (0..16u8).flat_map(|f| kinds6.into_iter().flat_map(move |ans| (0..3u8).map(move |mode| Step { adv_ms: 0, q: 0, f, ans, mode, eo: 0 }))).collect();
     items.par_iter().for_each(|&fill| {
         wd.enter(|| json!({"shape": "request-representation", "fill": step_json(&fill)}));
         let mut loc = Local::default();
@@ -1845,7 +2106,7 @@ fn main() {
             for &a in &adv3 {
                 for f in 0..16u8 {
                     loc.nodes += 1;
-                    let h = [fill, Step { adv_ms: a, q: 0, f, ans: K_PROBE, mode }];
+                    let h = [fill, Step { adv_ms: a, q: 0, f, ans: K_PROBE, mode, eo: 0 }];
                     eval_history(&ctx, "request-representation", 0, &h, &mut loc, false);
                 }
             }
@@ -1889,15 +2150,75 @@ fn main() {
         })
         .collect();
     items.par_iter().for_each(|&(style, (a, r, f), ans)| {
-        let fill = Step { adv_ms: 0, q: 0, f, ans, mode: cons_mode(style, a, r) };
+        let fill = Step { adv_ms: 0, q: 0, f, ans, mode: cons_mode(style, a, r), eo: 0 };
         wd.enter(|| json!({"shape": "request-construction", "fill": step_json(&fill)}));
         let mut loc = Local::default();
         loc.nodes += 1;
         for &(a2, r2, f2) in &cons8 {
             for &adv in &adv8 {
                 loc.nodes += 1;
-                let h = [fill, Step { adv_ms: adv, q: 0, f: f2, ans: K_PROBE, mode: cons_mode(style, a2, r2) }];
+                let h = [fill, Step { adv_ms: adv, q: 0, f: f2, ans: K_PROBE, mode: cons_mode(style, a2, r2), eo: 0 }];
                 eval_history(&ctx, "request-construction", 0, &h, &mut loc, false);
+            }
+        }
+        wd.leave();
+        global.lock().unwrap().merge(loc);
+    });
+
+    // ---- shape 9: EDNS options of the request. The request constructions of
+    //      shape 8 (reduced menus of base message x flag route) x the EDNS
+    //      layout of the request: options added through add_opt {none, one
+    //      zero-length option, zero-length before / after a non-empty one,
+    //      several zero-length ones, cookie, padding, client-subnet, an
+    //      unknown code with and without data, two and five options},
+    //      set_udp_payload_size by the caller (65535, 0x8000), options added
+    //      before the flags, and a base message whose own OPT record has a
+    //      non-zero version / extended-rcode / Z bits and options of its own.
+    //      Layouts are paired (fill X, probe none), (fill none, probe X),
+    //      (fill X, probe X); for a fill with options the upstream answers
+    //      once without and once with the options copied into the OPT record
+    //      of its answer. Oracle as in shape 8 (flags read by the harness's
+    //      reader from the transport's octets; the OPT RDATA is not
+    //      interpreted for that), plus: what a transport sends is a
+    //      well-formed option sequence containing every option the caller added.
+    let eos9: Vec<u8> = if quick { vec![0, 1, 3, 4, 5, 8, 9, 10, 12, 18] } else { (0..EOPTS.len() as u8).collect() };
+    // (base message, route): setters with DO only when set; set_dnssec_ok always called; no setter over a base OPT with DO=1; A record + base OPT DO=1 with setters
+    let ar9: [(u8, u8); 4] = [(0, 1), (0, 3), (2, 0), (5, 1)];
+    let f3s9: Vec<u8> = if quick { vec![RD, RD | AD] } else { vec![0, RD, AD, RD | AD] };
+    let kinds9: Vec<u8> = if quick { vec![16] } else { vec![16, 19, 33] };
+    let adv9: Vec<u64> = if quick { vec![1000] } else { vec![1000, 5000] };
+    let cons9: Vec<(u8, u8, u8)> = ar9
+        .iter()
+        .flat_map(|&(a, r)| {
+            let f3s9 = &f3s9;
+            f3s9.iter().flat_map(move |&f3| (0..2u8).filter(move |d| r != 0 || *d == 0).map(move |d| (a, r, f3 | if d == 1 { DO } else { 0 })))
+        })
+        .collect();
+    // (fill layout incl. echo bit, probe layout)
+    let mut eo_pairs: Vec<(u8, u8)> = eos9.iter().map(|&x| (0u8, x)).collect();
+    for &x in eos9.iter().filter(|x| **x != 0) {
+        for echo in [0, EO_ECHO] {
+            eo_pairs.push((x | echo, 0));
+            eo_pairs.push((x | echo, x));
+        }
+    }
+    let items: Vec<(u8, (u8, u8), (u8, u8, u8), u8)> = (0..N_STYLE)
+        .flat_map(|st| {
+            let (kinds9, cons9) = (&kinds9, &cons9);
+            eo_pairs.iter().flat_map(move |ep| cons9.iter().flat_map(move |c| kinds9.iter().map(move |&k| (st, *ep, *c, k))))
+        })
+        .collect();
+    let n_items9 = items.len();
+    items.par_iter().for_each(|&(style, (eo1, eo2), (a, r, f), ans)| {
+        let fill = Step { adv_ms: 0, q: 0, f, ans, mode: cons_mode(style, a, r), eo: eo1 };
+        wd.enter(|| json!({"shape": "request-edns-options", "fill": step_json(&fill), "probe_eo": eo2}));
+        let mut loc = Local::default();
+        loc.nodes += 1;
+        for &(a2, r2, f2) in &cons9 {
+            for &adv in &adv9 {
+                loc.nodes += 1;
+                let h = [fill, Step { adv_ms: adv, q: 0, f: f2, ans: K_PROBE, mode: cons_mode(style, a2, r2), eo: eo2 }];
+                eval_history(&ctx, "request-edns-options", 0, &h, &mut loc, false);
             }
         }
         wd.leave();
@@ -1919,11 +2240,11 @@ fn main() {
         let mut loc = Local::default();
         loc.nodes += 1;
         for p in 0..16u8 {
-            let mut h = vec![Step { adv_ms: 0, q: 0, f: f1, ans: k, mode: 0 }, Step { adv_ms: 0, q: 1, f: f1, ans: 1, mode: 0 }];
+            let mut h = vec![Step { adv_ms: 0, q: 0, f: f1, ans: k, mode: 0, eo: 0 }, Step { adv_ms: 0, q: 1, f: f1, ans: 1, mode: 0, eo: 0 }];
             for r in 0..ROUNDS {
                 let adv = if r % 10 == 9 && r < 30 { 1000 } else { 0 };
-                h.push(Step { adv_ms: adv, q: 0, f: p, ans: K_PROBE, mode: 0 });
-                h.push(Step { adv_ms: 0, q: 1, f: p, ans: K_PROBE, mode: 0 });
+                h.push(Step { adv_ms: adv, q: 0, f: p, ans: K_PROBE, mode: 0, eo: 0 });
+                h.push(Step { adv_ms: 0, q: 1, f: p, ans: K_PROBE, mode: 0, eo: 0 });
             }
             loc.nodes += h.len() as u64 - 1;
             eval_history(&ctx, "one-entry-eviction", CFG_ONE_ENTRY, &h, &mut loc, false);
@@ -1934,23 +2255,26 @@ fn main() {
 
     // ---- samples: shortest and deepest histories, executed and written out
     let mut sample_hist: Vec<(usize, Vec<Step>)> = vec![
-        (0, vec![Step { adv_ms: 0, q: 0, f: RD, ans: 0, mode: 0 }, Step { adv_ms: 10000, q: 0, f: RD, ans: 0, mode: 0 }]),
-        (0, vec![Step { adv_ms: 0, q: 0, f: RD, ans: 0, mode: 0 }, Step { adv_ms: 11000, q: 0, f: RD, ans: 0, mode: 0 }]),
-        (1, vec![Step { adv_ms: 0, q: 0, f: RD | DO, ans: 18, mode: 0 }, Step { adv_ms: 4000, q: 0, f: 0, ans: 0, mode: 0 }]),
-        (3, vec![Step { adv_ms: 0, q: 2, f: RD | AD, ans: 9, mode: 0 }, Step { adv_ms: 5000, q: 2, f: 0, ans: 0, mode: 0 }, Step { adv_ms: 11000, q: 2, f: RD, ans: 0, mode: 0 }]),
-        (0, vec![Step { adv_ms: 0, q: 0, f: RD | DO, ans: 19, mode: 0 }, Step { adv_ms: 5000, q: 0, f: CD, ans: 0, mode: 0 }, Step { adv_ms: 0, q: 0, f: 0, ans: 0, mode: 0 }]),
-        (0, vec![Step { adv_ms: 0, q: 0, f: RD, ans: 22, mode: 0 }, Step { adv_ms: 3_601_000, q: 0, f: RD, ans: 0, mode: 0 }]),
-        (0, vec![Step { adv_ms: 0, q: 0, f: RD | DO, ans: 33, mode: 0 }, Step { adv_ms: 1000, q: 0, f: RD, ans: 0, mode: 0 }]),
-        (0, vec![Step { adv_ms: 0, q: 0, f: RD | DO | CD, ans: 29, mode: 0 }, Step { adv_ms: 1000, q: 0, f: RD | CD | AD, ans: 0, mode: 0 }]),
-        (0, vec![Step { adv_ms: 0, q: 0, f: RD, ans: 0, mode: 0 }, Step { adv_ms: 1000, q: 4, f: RD, ans: 0, mode: 0 }]),
-        (0, vec![Step { adv_ms: 0, q: 5, f: RD, ans: 0, mode: 0 }, Step { adv_ms: 1000, q: 5, f: RD, ans: 0, mode: 0 }]),
-        (CFG_HUGE, vec![Step { adv_ms: 0, q: 0, f: RD, ans: 35, mode: 1 }, Step { adv_ms: 86_401_000, q: 0, f: RD, ans: 0, mode: 2 }]),
+        (0, vec![Step { adv_ms: 0, q: 0, f: RD, ans: 0, mode: 0, eo: 0 }, Step { adv_ms: 10000, q: 0, f: RD, ans: 0, mode: 0, eo: 0 }]),
+        (0, vec![Step { adv_ms: 0, q: 0, f: RD, ans: 0, mode: 0, eo: 0 }, Step { adv_ms: 11000, q: 0, f: RD, ans: 0, mode: 0, eo: 0 }]),
+        (1, vec![Step { adv_ms: 0, q: 0, f: RD | DO, ans: 18, mode: 0, eo: 0 }, Step { adv_ms: 4000, q: 0, f: 0, ans: 0, mode: 0, eo: 0 }]),
+        (3, vec![Step { adv_ms: 0, q: 2, f: RD | AD, ans: 9, mode: 0, eo: 0 }, Step { adv_ms: 5000, q: 2, f: 0, ans: 0, mode: 0, eo: 0 }, Step { adv_ms: 11000, q: 2, f: RD, ans: 0, mode: 0, eo: 0 }]),
+        (0, vec![Step { adv_ms: 0, q: 0, f: RD | DO, ans: 19, mode: 0, eo: 0 }, Step { adv_ms: 5000, q: 0, f: CD, ans: 0, mode: 0, eo: 0 }, Step { adv_ms: 0, q: 0, f: 0, ans: 0, mode: 0, eo: 0 }]),
+        (0, vec![Step { adv_ms: 0, q: 0, f: RD, ans: 22, mode: 0, eo: 0 }, Step { adv_ms: 3_601_000, q: 0, f: RD, ans: 0, mode: 0, eo: 0 }]),
+        (0, vec![Step { adv_ms: 0, q: 0, f: RD | DO, ans: 33, mode: 0, eo: 0 }, Step { adv_ms: 1000, q: 0, f: RD, ans: 0, mode: 0, eo: 0 }]),
+        (0, vec![Step { adv_ms: 0, q: 0, f: RD | DO | CD, ans: 29, mode: 0, eo: 0 }, Step { adv_ms: 1000, q: 0, f: RD | CD | AD, ans: 0, mode: 0, eo: 0 }]),
+        (0, vec![Step { adv_ms: 0, q: 0, f: RD, ans: 0, mode: 0, eo: 0 }, Step { adv_ms: 1000, q: 4, f: RD, ans: 0, mode: 0, eo: 0 }]),
+        (0, vec![Step { adv_ms: 0, q: 5, f: RD, ans: 0, mode: 0, eo: 0 }, Step { adv_ms: 1000, q: 5, f: RD, ans: 0, mode: 0, eo: 0 }]),
+        (CFG_HUGE, vec![Step { adv_ms: 0, q: 0, f: RD, ans: 35, mode: 1, eo: 0 }, Step { adv_ms: 86_401_000, q: 0, f: RD, ans: 0, mode: 2, eo: 0 }]),
     ];
     // a forwarded query (own OPT DO=1 in the base message, nothing set) then a DO query; DO behind an additional record then a plain query
-    sample_hist.push((0, vec![Step { adv_ms: 0, q: 0, f: RD, ans: 16, mode: cons_mode(2, 2, 0) }, Step { adv_ms: 1000, q: 0, f: RD | DO, ans: 0, mode: cons_mode(2, 0, 1) }]));
-    sample_hist.push((0, vec![Step { adv_ms: 0, q: 0, f: RD | DO, ans: 16, mode: cons_mode(0, 3, 1) }, Step { adv_ms: 1000, q: 0, f: RD, ans: 0, mode: cons_mode(0, 0, 0) }]));
+    sample_hist.push((0, vec![Step { adv_ms: 0, q: 0, f: RD, ans: 16, mode: cons_mode(2, 2, 0), eo: 0 }, Step { adv_ms: 1000, q: 0, f: RD | DO, ans: 0, mode: cons_mode(2, 0, 1), eo: 0 }]));
+    sample_hist.push((0, vec![Step { adv_ms: 0, q: 0, f: RD | DO, ans: 16, mode: cons_mode(0, 3, 1), eo: 0 }, Step { adv_ms: 1000, q: 0, f: RD, ans: 0, mode: cons_mode(0, 0, 0), eo: 0 }]));
+    // a DO query whose OPT record ends in a zero-length option, then a plain query; and the other way round
+    sample_hist.push((0, vec![Step { adv_ms: 0, q: 0, f: RD | DO, ans: 16, mode: cons_mode(0, 0, 1), eo: 1 | EO_ECHO }, Step { adv_ms: 1000, q: 0, f: RD, ans: 0, mode: cons_mode(0, 0, 1), eo: 0 }]));
+    sample_hist.push((0, vec![Step { adv_ms: 0, q: 0, f: RD, ans: 16, mode: cons_mode(2, 0, 1), eo: 0 }, Step { adv_ms: 1000, q: 0, f: RD | DO, ans: 0, mode: cons_mode(2, 0, 1), eo: 4 }]));
     if !quick {
-        sample_hist.push((0, vec![Step { adv_ms: 0, q: 0, f: RD | DO, ans: 18, mode: 0 }, Step { adv_ms: 5000, q: 0, f: RD, ans: 1, mode: 0 }, Step { adv_ms: 0, q: 0, f: 0, ans: 0, mode: 0 }, Step { adv_ms: 10000, q: 0, f: AD, ans: 0, mode: 0 }]));
+        sample_hist.push((0, vec![Step { adv_ms: 0, q: 0, f: RD | DO, ans: 18, mode: 0, eo: 0 }, Step { adv_ms: 5000, q: 0, f: RD, ans: 1, mode: 0, eo: 0 }, Step { adv_ms: 0, q: 0, f: 0, ans: 0, mode: 0, eo: 0 }, Step { adv_ms: 10000, q: 0, f: AD, ans: 0, mode: 0, eo: 0 }]));
     }
     for (c, h) in &sample_hist {
         let cfg = &CFGS[*c];
@@ -1983,6 +2307,13 @@ fn main() {
             json!({}),
         );
     }
+    if g.by_shape.get("request-edns-options").is_none_or(|v| v.1 == 0) || g.eo_upstream_saw_do_zero_last == 0 || g.eo_probe_do_zero_last_served == 0 || !g.outcomes.keys().any(|k| k & O_SRC_EDNS_OPTIONS != 0) {
+        ctx.violation(
+            "C20|machinery|vacuous",
+            "shape request-edns-options: nothing was served from the cache, or the upstream never received DO=1 in an OPT record ending in a zero-length option, or no DO=1 probe with such an OPT record was served from the cache, or no answer carrying EDNS options was served from the cache",
+            json!({}),
+        );
+    }
     let mut outcomes: BTreeMap<String, u64> = BTreeMap::new();
     for (k, v) in &g.outcomes {
         outcomes.insert(outcome_text(*k), *v);
@@ -2001,8 +2332,8 @@ fn main() {
             "distinct_nontrivial": g.nontrivial,
             "rule": "histories are pairwise distinct by construction (odometer over the product of the menus of each shape, per configuration); non-trivial = at least one step was answered without consulting the upstream (served from cache). states = nodes of the per-shape history trees (a node is the cache reached by one history prefix under one configuration; prefixes shared between shapes are counted once per shape); transitions = requests executed on the real cache::Connection",
             "exhaustive": true,
-            "bound_completed": format!("{}: fill·probe (({} configs x {} fills + config default+cache_truncated x the TC fills = {} (config, fill) pairs) x {} advances x 16 flags), fill·probe·probe ({} configs x {} fills x {} advances x 16 flags x {} advances x 16 flags), fill·cross-probe ({} configs x {} fills in all 8 request forms x the other forms, and the form itself for the 4 pass-through forms, x {} advances x 16 flags), config-limits (zero-requested and huge-requested, see menus.config_limits), request-representation (default config, a.ex/A, 3 answers x 16 x 16 flags x 8 mode pairs x 2 advances), request-construction ({} transports x ({} constructions x {} answers) fills x {} constructions x {} advances), one-entry-eviction (768 histories of 82 requests){}",
-                if quick { "quick" } else { "thorough" }, cfgs1.len(), fills1.len(), n_items1, adv1.len(), cfgs2.len(), fills2.len(), adv2a.len(), adv2.len(), cfgs3.len(), fills3.len(), adv3.len(), N_STYLE, cons8.len(), kinds8.len(), cons8.len(), adv8.len(),
+            "bound_completed": format!("{}: fill·probe (({} configs x {} fills + config default+cache_truncated x the TC fills = {} (config, fill) pairs) x {} advances x 16 flags), fill·probe·probe ({} configs x {} fills x {} advances x 16 flags x {} advances x 16 flags), fill·cross-probe ({} configs x {} fills in all 8 request forms x the other forms, and the form itself for the 4 pass-through forms, x {} advances x 16 flags), config-limits (zero-requested and huge-requested, see menus.config_limits), request-representation (default config, a.ex/A, 3 answers x 16 x 16 flags x 8 mode pairs x 2 advances), request-construction ({} transports x ({} constructions x {} answers) fills x {} constructions x {} advances), request-edns-options ({} (transport, fill layout, echo, probe layout, fill construction, answer) items out of {} EDNS layouts x {} constructions x {} answers, each x {} probe constructions x {} advances), one-entry-eviction (768 histories of 82 requests){}",
+                if quick { "quick" } else { "thorough" }, cfgs1.len(), fills1.len(), n_items1, adv1.len(), cfgs2.len(), fills2.len(), adv2a.len(), adv2.len(), cfgs3.len(), fills3.len(), adv3.len(), N_STYLE, cons8.len(), kinds8.len(), cons8.len(), adv8.len(), n_items9, eos9.len(), cons9.len(), kinds9.len(), cons9.len(), adv9.len(),
                 if quick { "" } else { ", fill·fill'·probe·probe (default config, reduced menus, see menus.shape4)" }),
             "menus": {
                 "questions_fill": ["a.ex/A", "b.ex/A", "a.ex/RRSIG"],
@@ -2020,6 +2351,18 @@ fn main() {
                     "probe_advances_ms": adv8,
                     "question": "a.ex/A", "config": "default",
                     "oracle_flags": "RD/CD/AD/DO read by the harness's reader from the octets the transport sends, for the upstream's view of a fill and for a later request alike; all transports must send the same flags for one request; at most one OPT record",
+                },
+                "request_edns_options": {
+                    "layouts": eos9.iter().map(|e| eopt(*e).text).collect::<Vec<_>>(),
+                    "layout_pairs": "(fill X, probe none), (fill none, probe X), (fill X, probe X); for X != none the upstream answers once with an OPT record without options and once with the request's options copied into it",
+                    "base_message_and_route": ar9.iter().map(|(a, r)| format!("{} / {}", ADDS[*a as usize], ROUTES[*r as usize])).collect::<Vec<_>>(),
+                    "flag_parameters": format!("{:?} (RD/CD/AD bits) x DO (DO is no parameter of the no-setter route)", f3s9),
+                    "constructions": cons9.len(),
+                    "upstream_transports": STYLES.to_vec(),
+                    "answers": kinds9.iter().map(|k| KINDS[*k as usize]).collect::<Vec<_>>(),
+                    "probe_advances_ms": adv9,
+                    "question": "a.ex/A", "config": "default",
+                    "oracle": "as request_construction (DO is bit 15 of the TTL field of the OPT record found anywhere in the additional section; the OPT RDATA is not interpreted for that); in addition the OPT RDATA a transport sends must be a well-formed RFC 6891 option sequence that contains every option the caller added (order and further options free), identical as a set for all transports",
                 },
                 "one_entry_eviction": {"fill": "a.ex/A x 16 flags x {pos-ttl10-aa, signed-pos20-rrsig5, transport-error}, then b.ex/A same flags pos-mixed", "rounds": ROUNDS, "probe_flags": 16},
                 "flags": "all 16 of RD x CD x AD x DO",
@@ -2043,6 +2386,13 @@ fn main() {
                 "requests_whose_base_OPT_said_DO_but_the_wire_does_not": g.cons_base_do_absent_on_wire,
                 "fills_where_upstream_saw_DO_in_an_OPT_behind_another_additional_record": g.cons_do_behind_record,
             },
+            "request_edns_options_observed": {
+                "requests_received_by_the_upstream_with_at_least_one_option": g.eo_upstream_saw_options,
+                "of_which_with_DO": g.eo_upstream_saw_do_options,
+                "of_which_with_DO_and_a_zero_length_option_last": g.eo_upstream_saw_do_zero_last,
+                "probes_ending_in_a_zero_length_option_served_from_cache": g.eo_probe_zero_last_served,
+                "of_those_probes_with_DO": g.eo_probe_do_zero_last_served,
+            },
             "distinct_oracle_outcomes": outcomes.len() + 1,
             "oracle_outcomes": outcomes,
             "served_from_cache_by_source_answer_kind": served_by_kind,
@@ -2061,6 +2411,7 @@ fn main() {
             "a response served when elapsed time EQUALS the bound (TTL reaches 0) is accepted: the property says 'once ... has elapsed' and implementations differ at the instant itself; counted in served_at_exactly_the_bound_accepted",
             "TTL after ageing may be original minus floor or ceil of elapsed seconds",
             "shape request-construction: the scripted upstream stands for a transport; what it 'receives' is produced the way dgram.rs (header_mut().set_id, optional set_udp_payload_size, to_message()) and stream.rs (header_mut().set_id, append_message()) produce the octets they send, with an ID different from the caller's; the flags of a request are what the harness's own reader finds in those octets",
+            "shape request-edns-options: EDNS options are hop-by-hop and no part of the cache key the property names (question, RD/CD/AD/DO); a request is served from an entry filled by a request with other options as long as the flags are compatible",
             "message ID and OPT records of served responses are not compared (hop-by-hop); record order within a section is not compared",
             "AA may be cleared and RD may be the query's in served responses (documented by cache.rs); an upstream that itself sends RRSIG/AD to a query that did not ask (answer kind signed-raw) is passed through for queries with the same DO/AD state and that is accepted",
             "NXDOMAIN without SOA being cached (RFC 2308 section 5 SHOULD NOT, and the module comment) is outside the property text; it is counted as an observation only",
